@@ -1028,6 +1028,12 @@ M("c07-f32-reintroduced", ["C07", "C16"], ["C07.cachekey", "C16.cachekey"],
         return hash((_make_key(method.func), bound))
 """, """    method = method.func if isinstance(method, partial) else method
 """))
+M("c07-f39-reintroduced", ["C07", "C16"], ["C07.cachekey", "C16.cachekey"],
+  E(SIG, """        if hasattr(method, "__signature__"):
+            # an explicit signature belongs to this very object: callables that share name and
+            # code (closures of one factory) may each declare their own
+            return user_function(cls, method)
+""", ""))
 M("c07-partial-key-ignores-keywords", ["C07", "C16"], ["C07.cachekey", "C16.cachekey"],
   E(SIG, "        bound = (len(method.args), tuple(sorted(method.keywords)))", "        bound = len(method.args)"))
 M("c17-event-deepcopy-returns-self", ["C17", "C13"], ["C17.carry", "C13.bind"],
